@@ -237,6 +237,9 @@ class Contract:
     merge_threshold: int = 0                              # frame mode: join states only above this many (0 = default)
     pop_guard: bool = False
     ctx_facts: list = field(default_factory=list)
+    node_stack: str = ""             # frame mode: this ctx field is the parser's node stack (ghost sequence of kind names, pyvc/pnodes.py)
+    assume_ensures: bool = False     # as a callee: havoc `modifies`, then assume `ensures` (old() = the state before the call)
+    default_loop: dict = field(default_factory=dict)   # loop spec for loops without a sidecar entry
     seq_split: bool = False          # value mode: s.split(d) is the immutable sequence py_split(s, d) (shared with the spec)
 
 
@@ -420,6 +423,8 @@ class X:
         lines = self.site_counts.setdefault(key, {})
         if ln not in lines:
             lines[ln] = len(lines)
+        if not hints and getattr(self.c, "node_stack", ""):
+            hints = ["cvc5-first"]
         self.obligs.append(Obligation(kind, self.cur_fn, site, lines[ln], list(st.pc), goal,
                                       exc=exc, prop=self.c.prop, line=ln, detail=detail,
                                       watch=watch or {}, hints=hints or []))
@@ -468,8 +473,12 @@ class X:
             return z3.BoolVal(len(v.t) > 0)
         if k == "strlist":
             return v.t["len"] > 0
-        if k == "sseq":
+        if k in ("sseq", "kstr"):
             return z3.Length(v.t) > 0
+        if k in ("pnode", "kind"):
+            return z3.BoolVal(True)
+        if k == "kindset":
+            return z3.BoolVal(len(v.t) > 0)
         if k in ("func", "ctx", "mod", "match", "type", "page"):
             return z3.BoolVal(True)
         if k == "opq":
@@ -863,6 +872,11 @@ class X:
                     return [(s, fresh("float"))]
             if isinstance(e.op, ast.UAdd) and v.k in ("int", "float"):
                 return [(s, v)]
+            if isinstance(e.op, ast.Invert) and v.k in ("kind", "kindset"):
+                from . import pnodes
+                r = pnodes.invert(v)
+                if r is not None:
+                    return [(s, r)]
             return [(s, self.unsupported("unary op", e))]
         return self.bind(self.ev(e.operand, st, chain), fin)
 
@@ -925,6 +939,14 @@ class X:
             if e.func.id in absmodels.CLAUSE_BUILTINS and not self.lookup(e.func.id, st, chain):
                 return self.bind_seq(list(e.args), st, chain,
                                      lambda s, vs: absmodels.clause_builtin(self, s, e.func.id, vs, {}, e, chain))
+        if isinstance(e.func, ast.Name) and getattr(self.c, "node_stack", ""):
+            from . import pnodes
+            if self.in_clause and e.func.id in pnodes.CLAUSE_BUILTINS and not self.lookup(e.func.id, st, chain):
+                return self.bind_seq(list(e.args), st, chain,
+                                     lambda s, vs: pnodes.clause_builtin(self, s, e.func.id, vs, {}, e))
+            r = pnodes.try_any(self, e, st, chain)
+            if r is not None:
+                return r
         if isinstance(e.func, ast.Name) and e.func.id == "old" and self.in_clause:
             # old(expr): evaluate against the entry snapshot's ghost state
             cur = st.ghost
@@ -1017,7 +1039,7 @@ class X:
             v1 = st.ghost.get(name)
             if v1 is v0:
                 continue
-            if v0.k == "sseq" and v1.k == "sseq":
+            if v0.k == v1.k and v0.k in ("sseq", "kstr"):
                 if v0.t.eq(v1.t):
                     continue
                 self.oblige("inv-keep", f"{what}: {name} unchanged @ {loader.norm(node)[:80]}", st,
@@ -1535,6 +1557,8 @@ class X:
         fp = ("for " + loader.norm(s_.target) + " in " + head) if isinstance(s_, ast.For) else ("while " + head)
         if fp in self.c.loops:
             self.matched_loops.add(fp)
+        elif self.c.default_loop and any(isinstance(n, ast.Call) for b in s_.body for n in ast.walk(b)):
+            return fp, self.c.default_loop
         return fp, self.c.loops.get(fp)
 
     def assigned_names(self, body) -> set[str]:
@@ -1915,6 +1939,8 @@ class X:
             elif gname == "M":
                 from . import absmodels
                 head.ghost[gname] = V("zarr", z3.Const(fresh_name("hv_M"), absmodels.TSet))
+            elif gname == getattr(self.c, "node_stack", None):
+                head.ghost[gname] = V("kstr", z3.String(fresh_name("hv_" + gname)))
             else:
                 head.ghost[gname] = V("sseq", z3.Const(fresh_name("hv_" + gname), SeqS))
         for cl in spec.get("invariant", []):
@@ -2064,7 +2090,8 @@ class X:
                 else:
                     self.obligs.append(Obligation(kind, self.cur_fn, ob_site[:200], 0, list(s2.pc),
                                                   self.truth_st(v, s2), prop=self.c.prop,
-                                                  line=getattr(node, "lineno", 0)))
+                                                  line=getattr(node, "lineno", 0),
+                                                  hints=["cvc5-first"] if getattr(self.c, "node_stack", "") else []))
 
     def _post_raise(self, s: St, chain, oc, entry: St):
         exc = oc[1]
